@@ -64,7 +64,16 @@ META = {
               "alive; per alive chip symbolic router block, SDRAM, SRAM, "
               "Ethernet word and unused arg1 bits; core count from {1, 2, "
               "17, 18}, link set, Ethernet bit and states by pattern (4 "
-              "rotations).  vcpu block: symbolic word-aligned 32-bit "
+              "rotations).  Two probes by one controller: a machine of "
+              "extent (w1, h1) is probed (or discover_connections() is "
+              "run on it, or the controller's width / height are simply "
+              "set), the machine then has extent (w2, h2) -- 1x1->2x1, "
+              "1x1->1x2, 1x1->2x2, 2x1->2x2, 2x2->1x1, 2x1->1x2 (thorough "
+              "also 2x2->3x2, 1x2->2x3, 3x2->2x1), optionally with one "
+              "routed chip not answering -- and is probed again with the "
+              "same controller; per chip symbolic router block, SDRAM, "
+              "Ethernet word, unused bits.  vcpu block: symbolic "
+              "word-aligned 32-bit "
               "vcpu_base (clear of SDRAM and of sv), symbolic core number "
               "0..17, all bytes symbolic except the name (menu of 2, "
               "thorough 4), the state / exception bytes symbolic over "
@@ -115,7 +124,9 @@ META = {
         "vcpu_base and console blocks are word aligned; console blocks lie "
         "in SDRAM (0x60000000..0x7fffffff), do not overlap and do not form "
         "a cycle; a block's length word does not exceed sv->iobuf_size",
-        "'the system's extent' = bounding box of chips with a P2P route",
+        "'the system's extent' = bounding box of chips with a P2P route "
+        "in the table read by this probe (a description never depends on "
+        "what the controller saw or was told earlier)",
     ],
     "outside_claim": [
         "machines above 6 chips in get_system_info / build_machine (the "
@@ -133,6 +144,8 @@ META = {
         "P2P tables larger than those listed (256 x 256 addressing is "
         "covered in one dimension at a time: 255x1, 1x255)",
         "timeouts / lost datagrams while probing (C06)",
+        "sequences of more than two probes, and a machine changing while "
+        "a probe is in progress",
         "get_processor_status unpacks with native byte order: on a "
         "big-endian host the decode differs; only little-endian hosts "
         "are modelled",
@@ -868,6 +881,101 @@ def h_get_machine(ctx, sizes, shifts):
     no_problems(ctx, machine)
 
 
+def install_state(ctx, machine, w, h, status, shift, sym_sram=True):
+    """(Re)define the machine: P2P table of w x h with the chips of `status`
+    routed, a fresh `info` record for every chip that answers."""
+    machine.status = status
+    machine.regions = [r for r in machine.regions
+                       if not (isinstance(r[1], int) and r[1] == P2P_BASE)]
+    machine.chips = {}
+
+    def entry(col, row):
+        if (col, row) not in status:
+            return P2P_NONE
+        if (col, row) == (0, 0):
+            return P2P_MONITOR
+        return p2p_pattern(col, row, shift) % 6
+    install_p2p(ctx, machine, (0, 0), w, h, entry)
+    grid = [(x, y) for x in range(w) for y in range(h)]
+    for idx, c in enumerate(grid):
+        if status.get(c) == "ok":
+            rec = chip_record(ctx, idx, shift)
+            if not sym_sram:
+                rec["arg3"] = 20000 + idx
+            machine.chips[c] = rec
+    return grid
+
+
+def h_two_probes(ctx, menu, priors):
+    """One controller probes, the machine changes extent, the same
+    controller probes again: the second description is that of the machine
+    as it is now (nothing remembered from the first probe, from
+    discover_connections() or from a width/height it was given)."""
+    from rig.machine_control import MachineController
+    from rig.place_and_route.utils import build_machine
+    from rig.place_and_route import Cores, SDRAM, SRAM
+    (w1, h1), (w2, h2) = ctx.pick(menu)
+    prior = ctx.pick(priors)
+    hole = ctx.choose(2) if w2 * h2 > 2 else 0
+    rig = Rig(ctx)
+    machine = rig.machine
+    machine.sver = (0, 0xffff0000 | 256, 0, b"SC&MP/SpiNNaker\0" b"2.0.0\0")
+    st1 = {(x, y): "ok" for x in range(w1) for y in range(h1)}
+    install_state(ctx, machine, w1, h1, st1, 1, sym_sram=False)
+    with rig:
+        mc = MachineController("host")
+        try:
+            if prior == "probe":
+                si1 = mc.get_system_info()
+                ctx.observe(si1.width, si1.height, sorted(si1))
+                ctx.prove((si1.width, si1.height) == (w1, h1) and
+                          set(si1) == set(st1), "system-info-first-probe")
+            elif prior == "discover":
+                ctx.observe(mc.discover_connections())
+            else:
+                mc._width, mc._height = w1, h1
+            # the machine changes
+            st2 = {(x, y): "ok" for x in range(w2) for y in range(h2)}
+            if hole:
+                st2[(0, 1) if h2 > 1 else (1, 0)] = "fatal"
+            mark = len(machine.log)
+            grid = install_state(ctx, machine, w2, h2, st2, 2,
+                                 sym_sram=False)
+            si = mc.get_system_info()
+            m = build_machine(si)
+        except Exception as e:
+            return unexpected(ctx, e, "system-info-unexpected-exception")
+    ctx.observe(si.width, si.height, sorted((k, tuple(v))
+                                            for k, v in si.items()),
+                sorted(m.dead_chips),
+                [(c, m[c][Cores], m[c][SDRAM], m[c][SRAM]) for c in m])
+    ctx.witness("second-probe-%s" % (
+        "grown" if (w2 >= w1 and h2 >= h1) else
+        "shrunk" if (w2 <= w1 and h2 <= h1) else "reshaped"))
+    ctx.witness("prior-" + prior)
+    alive = set(c for c in grid if st2.get(c) == "ok")
+    ctx.prove((si.width, si.height) == (w2, h2),
+              "system-info-stale-extent",
+              (prior, (w1, h1), (w2, h2), si.width, si.height))
+    ctx.prove(set(si) == alive, "system-info-second-probe-chips",
+              sorted(si))
+    for c in sorted(alive & set(si)):
+        check_chip(ctx, c, si[c], machine.chips[c])
+    check_views(ctx, si, alive, lambda c: machine.chips[c]["mask"],
+                lambda c: machine.chips[c]["states"][
+                    :machine.chips[c]["cores"]], max(w1, w2), max(h1, h2))
+    figures = {c: (machine.chips[c]["cores"], machine.chips[c]["arg2"],
+                   machine.chips[c]["arg3"]) for c in alive}
+    masks = {c: machine.chips[c]["mask"] for c in alive}
+    machine_matches(ctx, m, w2, h2, alive, figures, masks,
+                    "second-probe-machine")
+    probed = sorted(q.where for q in machine.log[mark:]
+                    if int(q.cmd) == CMD_INFO)
+    ctx.prove(probed == sorted((x, y, 0) for x, y in st2),
+              "system-info-probes", probed)
+    no_problems(ctx, machine)
+
+
 # ----------------------------------------------------------------------
 # A4: get_processor_status
 # ----------------------------------------------------------------------
@@ -1325,6 +1433,15 @@ def units(tier, seed):
     us.append(Unit("get_machine", h_get_machine, dict(
         sizes=sizes if q else sizes + ((3, 1), (1, 3)), shifts=(1,)),
         split=8, witnesses=("get-machine",)))
+    us.append(Unit("two probes, one controller", h_two_probes, dict(
+        menu=(((1, 1), (2, 1)), ((1, 1), (1, 2)), ((1, 1), (2, 2)),
+              ((2, 1), (2, 2)), ((2, 2), (1, 1)), ((2, 1), (1, 2))) +
+        (() if q else (((2, 2), (3, 2)), ((1, 2), (2, 3)),
+                       ((3, 2), (2, 1)))),
+        priors=("probe", "discover", "assigned")), split=6,
+        witnesses=("second-probe-grown", "second-probe-shrunk",
+                   "second-probe-reshaped", "prior-probe", "prior-discover",
+                   "prior-assigned")))
     us.append(Unit("processor status", h_processor_status, dict(
         names=(0, 1) if q else (0, 1, 2, 3)), split=6,
         witnesses=("status",)))
